@@ -16,6 +16,11 @@
 (*  k = "ord"  a, b, sa, less      orderedPartitioner: Hash(a).Less(Hash(b)) *)
 (*                                 (sa = Hash(a).String() bytes: drift only)*)
 (*  k = "rk"   vals, idx, out, out2, err   createRoutingKey / GetRoutingKey *)
+(*  k = "rkseq" obj, idx, steps, outs, outs2, err   a script on ONE Query /  *)
+(*                                 Batch value (Bind / RoutingKey / Batch.Query*)
+(*                                 / GetRoutingKey); outs = the key at each  *)
+(*                                 "get", outs2 = the same slices re-read at *)
+(*                                 the end of the script and later           *)
 (*  k = "cmp"  p, a, b, ra, less   p.ParseString(a).Less(p.ParseString(b)) *)
 (*                                 (ra = ParseString(a).String(): drift)   *)
 (*  k = "cmpk" p, a, key, md5, ak, ka   Parse(a).Less(Hash(key)) and       *)
@@ -44,6 +49,7 @@ Verdict(r) ==
     [] r.k = "rnd" -> LET e == RandomTokenAscii(r.md5) IN V(r.out = e /\ r.out2 = e, e)
     [] r.k = "ord" -> LET e == BytesLt(r.a, r.b) IN D(V(r.less = e, B(e)), r.sa = r.a, "orderedToken.String() is not the key")
     [] r.k = "rk" -> LET e == RoutingKey(r.vals, r.idx) IN V(r.err = "" /\ r.out = e /\ r.out2 = e, e)
+    [] r.k = "rkseq" -> LET e == SeqExpected(r.obj, r.steps, r.idx) IN V(r.err = "" /\ r.outs = e /\ r.outs2 = e, e)
     [] r.k = "cmp" -> LET e == DecLt(r.a, r.b) IN
                       D(V(IsCanonDec(r.a) /\ IsCanonDec(r.b) => r.less = e, B(e)), IsCanonDec(r.a) => r.ra = r.a,
                         "ParseString(s).String() is not s")
